@@ -3,11 +3,13 @@ use crate::common::{Ctx, Report};
 use serde_json::Value;
 
 pub mod brackets;
+pub mod c03rt;
 pub mod c04;
 pub mod c05;
 pub mod c06a;
 pub mod c07;
 pub mod c09a;
+pub mod c09b;
 pub mod c15;
 pub mod c18;
 pub mod c20;
@@ -20,11 +22,23 @@ pub fn run(ctx: &Ctx) -> Option<Report> {
         "C02" => Some(stateful::run_target(ctx, Target::C02)),
         "C16" => Some(stateful::run_target(ctx, Target::C16)),
         "C17" => Some(stateful::run_target(ctx, Target::C17)),
-        "C03" => Some(stateful::run_target(ctx, Target::C03)),
+        "C03" => {
+            let mut r = stateful::run_target(ctx, Target::C03);
+            let floor = r.nontrivial_floor;
+            r.merge(c03rt::run(ctx));
+            r.nontrivial_floor = floor;
+            Some(r)
+        }
         "C04" => Some(c04::run(ctx)),
         "C05" => Some(c05::run(ctx)),
         "C07" => Some(c07::run(ctx)),
-        "C09" => Some(c09a::run(ctx)),
+        "C09" => {
+            let mut r = c09a::run(ctx);
+            let floor = r.nontrivial_floor;
+            r.merge(c09b::run(ctx));
+            r.nontrivial_floor = floor;
+            Some(r)
+        }
         "C10" => Some(brackets::run(ctx, true)),
         "C11" => Some(brackets::run(ctx, false)),
         "C15" => Some(c15::run(ctx)),
@@ -48,11 +62,23 @@ pub fn replay(ctx: &Ctx, case: &Value) -> Option<Report> {
         "C02" => Some(stateful::replay_target(ctx, Target::C02, case)),
         "C16" => Some(stateful::replay_target(ctx, Target::C16, case)),
         "C17" => Some(stateful::replay_target(ctx, Target::C17, case)),
-        "C03" => Some(stateful::replay_target(ctx, Target::C03, case)),
+        "C03" => {
+            if case.get("ops").is_some() {
+                Some(stateful::replay_target(ctx, Target::C03, case))
+            } else {
+                Some(c03rt::replay(ctx, case))
+            }
+        }
         "C04" => Some(c04::replay(ctx, case)),
         "C05" => Some(c05::replay(ctx, case)),
         "C07" => Some(c07::replay(ctx, case)),
-        "C09" => Some(c09a::replay(ctx, case)),
+        "C09" => {
+            if case.get("half").and_then(|h| h.as_str()) == Some("c09b") {
+                Some(c09b::replay(ctx, case))
+            } else {
+                Some(c09a::replay(ctx, case))
+            }
+        }
         "C10" => Some(brackets::replay(ctx, case, true)),
         "C11" => Some(brackets::replay(ctx, case, false)),
         "C15" => Some(c15::replay(ctx, case)),
